@@ -27,6 +27,7 @@ impl Rpc {
     pub fn get_info(&self, Tracked(w): Tracked<&mut World>) -> (r: ::std::result::Result<GetinfoResponse, RpcError>)
         ensures *final(w) == (World { last_polled: final(w).last_polled, ..*old(w) }),
             r is Ok ==> final(w).last_polled == r->Ok_0.blockheight as int,
+            r is Err ==> final(w).last_polled == old(w).last_polled,
     { unimplemented!() }
 }
 
@@ -40,7 +41,10 @@ pub struct PollGhost { pub sleeps: nat, pub polls: nat }
 pub proof fn ghost_polled(tracked p: &mut PollGhost)
     ensures *final(p) == (PollGhost { polls: old(p).polls + 1, ..*old(p) })
 { unimplemented!() }
-pub mod tokio { pub mod time {
+pub mod tokio {
+    #[verifier::external_body]
+    pub fn spawn<T>(t: T) -> (r: super::JoinHandle<T>) { unimplemented!() }
+    pub mod time {
     use super::super::*;
     #[verifier::external_body]
     pub fn sleep(d: Duration, Tracked(p): Tracked<&mut PollGhost>)
@@ -49,9 +53,15 @@ pub mod tokio { pub mod time {
             old(p).sleeps == old(p).polls,                            // #every_wakeup_is_followed_by_a_poll [C20]
         ensures *final(p) == (PollGhost { sleeps: old(p).sleeps + 1, ..*old(p) }),
     { unimplemented!() }
-} }
+    }
+}
 impl mpsc::Receiver<()> {
     // the shutdown signal: may arrive at any time
     #[verifier::external_body]
     pub fn recv(&mut self) -> (r: Option<()>) { unimplemented!() }
 }
+
+// start(): the polling task is handed to the scheduler.  Under E2 the argument of tokio::spawn has
+// been evaluated (the contract of poll_forever: the height never decreases); spawning itself is
+// not under contract.
+pub struct JoinHandle<T> { pub p: core::marker::PhantomData<T> }
